@@ -194,4 +194,54 @@ Proof.
     assert (Hhmo : holders mo = holders m) by (destruct m; reflexivity).
     split.
     + eapply ginv_geq; [apply (install_h s' _ k mo m' P1 Hm'); gs; auto|].
- Show. 
+      * intros r0. rewrite Hhm', Hhmo, Hhol, !occ_app. specialize (P3 r0). lia.
+      * intros r0 Hi. destruct (Hpre1 r0 Hi) as [X1 [X2 [l0 [X3 [X4 X5]]]]]. rewrite Hhmo. repeat split; auto.
+        destruct Hi as [<-|[]]. exists l1. repeat split; try exact P6; congruence.
+      * intros c0 Hc0. assert (Hc1 : c0 = c) by (destruct m; cbn in *; congruence). subst c0.
+        assert (Hst : aget (store s') c <> None).
+        { apply (mo_refs _ _ _ _ (gi_mgr _ _ P1 k mo Hm')). unfold phk. gs. rewrite <- Hk, N.eqb_refl. rewrite Hhmo, occ_app.
+          assert (Hc2 : occ c (holders m) = 1%nat).
+          { unfold holders, cur_list. rewrite Ec. simpl. rewrite N.eqb_refl. pose proof (proj1 (occ_nodup _) B4 c) as N0.
+            unfold holders, cur_list in N0. rewrite Ec in N0. simpl in N0. rewrite N.eqb_refl in N0. lia. }
+          pose proof (gi_phle _ _ P1 c) as PL. unfold phl in PL. gs. rewrite Hpw, Hk, (getm_some _ _ _ Hm'), Hhmo in PL.
+          specialize (P3 c). rewrite Hhol, occ_app in Hc2.
+          assert (c <> r). { intros ->. apply occ_notin in Hh. apply Hh. unfold holders, cur_list. rewrite Ec. simpl. auto. }
+          simpl in P3. destruct (r =? c) eqn:E; [apply N.eqb_eq in E; congruence|].
+          unfold cur_list in Hc2. rewrite Ec in Hc2. simpl in Hc2. rewrite N.eqb_refl in Hc2.
+          (* c is the current lock: not in the queue, hence not a phantom *) lia. }
+        rewrite (qframe_locked s1 s' c P2 Hst). unfold s1. rewrite getl_setl.
+        destruct (r =? c) eqn:E; [apply N.eqb_eq in E; subst; exfalso; apply occ_notin in Hh; apply Hh; unfold holders, cur_list; rewrite Ec; simpl; auto|].
+        apply B7; auto.
+      * intros Hc0. destruct m; cbn in *; congruence.
+      * intros q0 Hq0. assert (q0 = q') by (destruct mo; cbn in Hq0; congruence). subst q0. exact P4.
+      * intros q0 Hq0. assert (q0 = q') by (destruct mo; cbn in Hq0; congruence). subst q0. exact P5.
+      * match goal with |- _ = _ <| g_dl := ?e |> => replace e with (g_dl g + 1)%Z; [destruct g; gs; subst; reflexivity|] end.
+        gs. simpl. rewrite (getl_some _ _ _ P6), F3. lia.
+    + constructor.
+      * exists l1. repeat split; try congruence. change (store (setm s' k m')) with (store s'). exact P6.
+      * eapply lframe_trans; [apply qframe_lframe; exact P2|].
+        pose proof (lframe_updm_lists s' k (fun m => m <| m_locks := Some q' |>)) as LF. rewrite (updm_some _ _ _ _ Hm') in LF.
+        apply LF. intros m0. destruct m0; cbn. auto.
+  - (* becomes the current lock *)
+    rewrite (updm_some _ _ _ _ Hm1).
+    set (m' := m <| m_cur := Some r |>).
+    assert (Hhq : m_hq m = []) by auto.
+    assert (Hhm : holders m = []) by (unfold holders, cur_list; rewrite Ec, Hhq; reflexivity).
+    assert (Hhm' : holders m' = [r]) by (unfold holders, cur_list, m', m_hq in *; destruct m; cbn in *; rewrite Hhq; reflexivity).
+    split.
+    + eapply ginv_geq; [apply (install_h s1 _ k m m' G1 Hm1); gs; auto|].
+      * intros r0. rewrite Hhm', Hhm, Hp. simpl. lia.
+      * intros c0 Hc0. assert (c0 = r) by (destruct m; cbn in *; congruence). subst c0.
+        rewrite (getl_some _ _ _ Hr1), F3. lia.
+      * intros Hc0. destruct m; cbn in *; discriminate.
+      * intros q0 Hq0. assert (Hq1 : m_locks m = Some q0) by (destruct m; exact Hq0).
+        unfold s1. apply map_ok_setl; [apply B10; auto|]. intros items mp Hs id E.
+        destruct (B10 q0 Hq1 items mp Hs id r E) as [_ [Cl _]]. rewrite (getl_some _ _ _ Hr) in Cl. lia.
+      * intros q0 Hq0. assert (Hq1 : m_locks m = Some q0) by (destruct m; exact Hq0). exact (proj1 Bc q0 Hq1).
+      * match goal with |- _ = _ <| g_dl := ?e |> => replace e with (g_dl g + 1)%Z; [destruct g; gs; subst; reflexivity|] end.
+        gs. simpl. rewrite (getl_some _ _ _ Hr1), F3. lia.
+    + constructor.
+      * exact Hpost1.
+      * pose proof (lframe_updm_lists s1 k (fun m => m <| m_cur := Some r |>)) as LF. rewrite (updm_some _ _ _ _ Hm1) in LF.
+        apply LF. intros m0. destruct m0; cbn. auto.
+Qed.
